@@ -6,12 +6,12 @@ From Coq Require Import ZArith List.
 Local Open Scope Z_scope.
 
 Definition word := Z.
-(* width-carrying aliases: a binder of Go type uintN is printed with type wN (w0 = Go's int) *)
-Definition w0 := Z.
-Definition w8 := Z.
-Definition w16 := Z.
-Definition w32 := Z.
-Definition w64 := Z.
+(* width-carrying aliases: a binder of Go type uintN is printed with type zwN (zw0 = Go's int) *)
+Definition zw0 := Z.
+Definition zw8 := Z.
+Definition zw16 := Z.
+Definition zw32 := Z.
+Definition zw64 := Z.
 
 Definition conv8 (a : Z) := a mod 256.
 Definition conv16 (a : Z) := a mod 65536.
